@@ -220,6 +220,12 @@ func (t *offTracer) trace(v ssa.Value, depth int) {
 			t.leaves["size"] = true
 		case "Align", "FieldAlign":
 			t.leaves["alignment"] = true
+		case "Len":
+			if x.Common().IsInvoke() && strings.HasSuffix(x.Common().Value.Type().String(), "reflect.Type") {
+				t.leaves["array-len"] = true
+			} else {
+				t.leaves["other:call Len"] = true
+			}
 		case "Offsetof":
 			t.leaves["field-offset"] = true
 		default:
